@@ -18,6 +18,32 @@ Theorem C14_encode_refines_spec :
 Proof. exact encode_refines_spec. Qed.
 Print Assumptions C14_encode_refines_spec.
 
+(* record size 0: "mice: invalid record size" (an error; it used to be an integer
+   division by zero, i.e. a run-time panic).  So the premise 1 <= rs above is exactly
+   the domain on which Encode succeeds, and Encode never panics or loops. *)
+Theorem C14_encode_rs0_err :
+  forall (H : bytes -> bytes) (d : draft) (p : bytes), encode H d 0 p = Err.
+Proof. exact encode_rs0_err. Qed.
+Print Assumptions C14_encode_rs0_err.
+
+Theorem C14_encode_ok_or_err :
+  forall (H : bytes -> bytes) (d : draft) (rs : N) (p : bytes),
+    (rs = 0 /\ encode H d rs p = Err)
+    \/ (1 <= rs /\ encode H d rs p = Ok (stream H d rs p, digest_header H d rs p)).
+Proof. exact encode_ok_or_err. Qed.
+Print Assumptions C14_encode_ok_or_err.
+
+Theorem C14_encode_never_panics :
+  forall (H : bytes -> bytes) (d : draft) (rs : N) (p : bytes),
+    encode H d rs p <> Panic /\ encode H d rs p <> Fuel.
+Proof. exact encode_never_panics. Qed.
+Print Assumptions C14_encode_never_panics.
+
+Example ex_encode_rs0 :
+  encode sha256 D03 0 [1; 2; 3] = Err /\ encode sha256 D02 0 [] = Err /\
+  match encode sha256 D03 1 [1; 2; 3] with Ok _ => True | _ => False end.
+Proof. vm_compute. repeat split. Qed.
+
 (* all four base64 alphabets/paddings decode what they encode *)
 Theorem C14_b64_roundtrip :
   forall (pad url : bool) (bs : bytes),
